@@ -519,6 +519,142 @@ def localbuf_correspondence(ctx, rep, n):
 CLI_MINE = ('exception', 'hang', 'snapshot_unreadable', 'snapshot_objects', 'snapshot_name', 'partial_object', 'unknown_object', 'referenced_chunk_missing', 'gc_incomplete', 'restore_mismatch', 'config_touched', 'gc_overreach', 'stored_bytes')
 
 
+def local_session_probe(ctx, rep: Report, n, only=None):
+    """"A backend call fails for good" inside a program that keeps running: ONE Repository object on ONE Local backend object (a real
+    directory) meets a permanently failing upload during a snapshot, or a permanently failing removal during a delete, at the k-th such
+    call; the program then cleans and takes the snapshot again with the same objects.  Both must succeed; a brand-new client then
+    lists, restores every visible snapshot byte for byte and finds, after its own clean, exactly the referenced chunks."""
+    from replicat.backends.local import Local
+    from replicat.repository import Repository
+    from harness.refreader import RefReader
+
+    class BackendDown(Exception):
+        pass
+
+    class FlakyLocal(Local):
+        armed = None        # (method name, countdown)
+
+        def _strike(self, what):
+            if self.armed and self.armed[0] == what:
+                if self.armed[1] == 0:
+                    raise BackendDown(f'{what} failed for good')
+                self.armed = (what, self.armed[1] - 1)
+
+        def upload_stream(self, name, stream, length, *a, **k):
+            self._strike('upload_stream')
+            return super().upload_stream(name, stream, length, *a, **k)
+
+        def delete(self, name):
+            self._strike('delete')
+            return super().delete(name)
+
+    trials = only if only is not None else [(ctx.rng.choice(['snapshot', 'delete']), k, enc) for k in range(n) for enc in (False, True)][:n]
+    for victim, k, enc in trials:
+        wd = Path(ctx.scratch) / f'session-{victim}-{k}-{int(enc)}'
+        shutil.rmtree(wd, ignore_errors=True)
+        (wd / 'a').mkdir(parents=True)
+        (wd / 'b').mkdir(parents=True)
+        rng = random.Random(k * 7 + enc)
+        shared = rng.randbytes(150)
+        (wd / 'a' / 'f').write_bytes(shared + rng.randbytes(260))
+        (wd / 'b' / 'g').write_bytes(rng.randbytes(330) + shared)
+        (wd / 'b' / 'h').write_bytes(rng.randbytes(120))
+        out = {'problems': []}
+
+        async def go():
+            be = FlakyLocal(str(wd / 'repo'))
+            settings = {'chunking': {'min_length': 32, 'max_length': 64}, 'hashing': {'name': 'blake2b', 'length': 16}}
+            settings['encryption'] = {'cipher': {'name': 'aes_gcm'}, 'kdf': {'name': 'scrypt', 'n': 4, 'r': 1, 'p': 1}} if enc else None
+            pw = b'pw' if enc else None
+            init = await Repository(be, concurrent=2, quiet=True, cache_directory=None).init(password=pw, settings=settings)
+            key = init.key if enc else None
+            r = Repository(be, concurrent=2, quiet=True, cache_directory=None)
+            await r.unlock(password=pw, key=key)
+            sa = await r.snapshot(paths=[wd / 'a'])
+            truth = {sa.name: {'f': (wd / 'a' / 'f').read_bytes()}}
+            fired = False
+            if victim == 'snapshot':
+                be.armed = ('upload_stream', k)
+                try:
+                    await r.snapshot(paths=[wd / 'b'])
+                    out['outcome'] = 'completed'
+                except BackendDown:
+                    out['outcome'], fired = 'failed', True
+                except Exception as e:
+                    out['problems'].append(('unusable', f'the snapshot that met the failing upload raised {type(e).__name__} instead of the backend\'s error'))
+            else:
+                sb0 = await r.snapshot(paths=[wd / 'b'])
+                truth[sb0.name] = {'g': (wd / 'b' / 'g').read_bytes(), 'h': (wd / 'b' / 'h').read_bytes()}
+                be.armed = ('delete', k)
+                try:
+                    await r.delete_snapshots([sa.name], confirm=False)
+                    out['outcome'] = 'completed'
+                    truth.pop(sa.name)
+                except BackendDown:
+                    out['outcome'], fired = 'failed', True
+                except Exception as e:
+                    out['problems'].append(('unusable', f'the delete that met the failing removal raised {type(e).__name__} instead of the backend\'s error'))
+            be.armed = None
+            out['fired'] = fired
+            # the program goes on with the same objects
+            try:
+                await r.clean()
+            except Exception as e:
+                out['problems'].append(('unusable', f'clean by the same session after the failed {victim} fails: {type(e).__name__}: {str(e)[:80]}'))
+            try:
+                sb = await r.snapshot(paths=[wd / 'b'])
+                truth[sb.name] = {'g': (wd / 'b' / 'g').read_bytes(), 'h': (wd / 'b' / 'h').read_bytes()}
+            except Exception as e:
+                out['problems'].append(('unusable', f'a new snapshot by the same session after the failed {victim} and a clean fails: {type(e).__name__}: {str(e)[:80]}'))
+            # a brand-new client audits
+            be2 = Local(str(wd / 'repo'))
+            r2 = Repository(be2, concurrent=2, quiet=True, cache_directory=None)
+            await r2.unlock(password=pw, key=key)
+            listed = [x async for x in r2._load_snapshots()]
+            names = {r2.parse_snapshot_location(p).name for p, _ in listed}
+            # a delete that failed part-way may have removed the snapshot object already (then it is not visible: fine)
+            for nm in names:
+                if nm not in truth and not (victim == 'delete' and nm == sa.name):
+                    out['problems'].append(('partial_visible', f'after a failed {victim} a snapshot is visible that no completed command wrote'))
+            if victim == 'delete' and sa.name in names:
+                truth.setdefault(sa.name, {'f': (wd / 'a' / 'f').read_bytes()})
+            for nm in sorted(names & set(truth)):
+                dest = wd / f'out-{nm[:8]}'
+                dest.mkdir()
+                try:
+                    await r2.restore(snapshot_regex='^' + nm + '$', path=dest)
+                except Exception as e:
+                    out['problems'].append(('unrestorable', f'after a failed {victim}, clean and a new snapshot by one long-lived session a visible snapshot cannot be restored: {type(e).__name__}: {str(e)[:80]}'))
+                    continue
+                got = {p.name: p.read_bytes() for p in dest.rglob('*') if p.is_file()}
+                if got != truth[nm]:
+                    out['problems'].append(('unrestorable', f'after a failed {victim}, clean and a new snapshot by one long-lived session a visible snapshot restores to other contents'))
+            for nm in set(truth) - names:
+                if not (victim == 'delete' and nm == sa.name):
+                    out['problems'].append(('unusable', f'a snapshot that a completed command took is not visible after the failed {victim}'))
+            await r2.clean()
+            ref = {r2._chunk_digest_to_location(d) for _, body in [x async for x in r2._load_snapshots()] for d in body['chunks']}
+            have = {n_ for n_ in be2.list_files('data/')}
+            if have != ref:
+                out['problems'].append(('orphans_not_collected', f'after a failed {victim} and clean: {len(have - ref)} unreferenced and {len(ref - have)} missing chunk object(s)'))
+
+        err = None
+        with quiet()[0], quiet()[1]:
+            try:
+                asyncio.run(asyncio.wait_for(go(), 240))
+            except Exception as e:
+                err = f'{type(e).__name__}: {str(e)[:160]}'
+        shutil.rmtree(wd, ignore_errors=True)
+        rep.case(('local-session', victim, k, enc), nontrivial=bool(out.get('fired')))
+        rep.count('local_session_probe')
+        if err is not None:
+            rep.violations.append({'what': f'long-lived session on a local repository, {victim} meeting failing call #{k}: the audit could not run: {err}',
+                                   'signature': {'kind': 'unusable', 'probe': 'local_session'}, 'replay': {'probe': 'local_session', 'trial': [victim, k, enc]}})
+        for kind, what in out['problems']:
+            rep.violations.append({'what': f'[{victim} meeting failing call #{k}, {"encrypted" if enc else "plain"}] ' + what,
+                                   'signature': {'kind': kind, 'probe': 'local_session'}, 'replay': {'probe': 'local_session', 'trial': [victim, k, enc]}})
+
+
 def _run(ctx, nscen, max_points, nlocal, rep):
     cases, exps = [], []
     for _ in range(nscen):
@@ -535,6 +671,7 @@ def _run(ctx, nscen, max_points, nlocal, rep):
     cache_kill_probe(ctx, rep, max(4, nlocal // 10))
     local_os_fault_probe(ctx, rep, max(4, nlocal // 10))
     localbuf_correspondence(ctx, rep, max(16, nlocal // 3))
+    local_session_probe(ctx, rep, max(8, nscen))
     # two uploads of one object name that overlap in time must never publish a mixture (each writer needs a temporary of its own)
     from harness import c02 as _c02
     _c02.local_overlap_probe(ctx, rep)
@@ -586,7 +723,9 @@ def replay(ctx, obj):
         for v in rep.violations:
             print('VIOLATION-REPRODUCED', v['what'])
         return 1 if rep.violations else 0
-    if 'seed' in r:
+    if r.get('probe') == 'local_session':
+        local_session_probe(ctx, rep, 1, only=[tuple(r['trial'])])
+    elif 'seed' in r:
         wd = ctx.scratch / 'replay'
         wd.mkdir()
         scenario(r['seed'], wd, rep, 1000)
